@@ -50,7 +50,13 @@ pub fn gen(
 
     // The HIR backends used to be named "c2", "js2", etc
     let target_language = target_language.strip_suffix('2').unwrap_or(target_language);
-    let mut attr_validator = hir::BasicAttributeValidator::new(target_language);
+    // `py-nanobind` is another spelling of the nanobind backend; attribute conditions name it `nanobind`
+    let backend_name = if target_language == "py-nanobind" {
+        "nanobind"
+    } else {
+        target_language
+    };
+    let mut attr_validator = hir::BasicAttributeValidator::new(backend_name);
     attr_validator.support = match target_language {
         "c" => c::attr_support(),
         "cpp" => cpp::attr_support(),
